@@ -180,8 +180,10 @@ func (e *Engine) valueEq(x, y Value, t types.Type) *term.T {
 		return e.tb.Eq(a, y.(*term.T))
 	case String:
 		return e.strEq(a, y.(String))
+	case SymPtr:
+		return e.valueEq(e.asPtr(a), y, t)
 	case Ptr:
-		b := y.(Ptr)
+		b := e.asPtr(y)
 		return e.tb.Bool(a.Obj == b.Obj && (a.Obj == nil || a.Off == b.Off))
 	case Iface:
 		b := y.(Iface)
@@ -253,6 +255,9 @@ func (e *Engine) walkCells(t types.Type, f func(off int, ct types.Type)) {
 func (e *Engine) unop(g *Goroutine, x *ssa.UnOp, v Value) Value {
 	switch x.Op {
 	case token.MUL:
+		if sp, ok := v.(SymPtr); ok {
+			return e.symLoad(sp)
+		}
 		p := v.(Ptr)
 		if p.Obj == nil {
 			e.goPanic(g, "nil pointer dereference (load)")
@@ -278,6 +283,9 @@ func (e *Engine) convert(g *Goroutine, v Value, from, to types.Type) Value {
 	fu, tu := from.Underlying(), to.Underlying()
 	tb := e.tb
 	// pointer <-> unsafe.Pointer <-> pointer, uintptr from pointer unsupported
+	if sp, ok := v.(SymPtr); ok {
+		v = e.asPtr(sp)
+	}
 	if _, ok := v.(Ptr); ok {
 		if _, isP := tu.(*types.Pointer); isP || isUnsafePointer(to) {
 			return v
